@@ -1,6 +1,7 @@
 package checks
 
 import (
+	"os"
 	"path/filepath"
 
 	"github.com/ddddddO/gtree"
@@ -157,6 +158,26 @@ func c07One(c *Ctx, cs *Case, f model.Forest, doc, fkey string, rt fsRoute, dry,
 		return
 	}
 	defer j.Remove()
+	// a third of the targets already contain symbolic links that lead OUT of the target, named like
+	// the tree's nodes (to a directory outside, or dangling to a place outside): whatever the
+	// names, nothing may be created through them
+	outwardLinks := (cs.Idx+ei+tf)%3 == 0
+	if outwardLinks {
+		_, names := gen.Depths(f)
+		seen := map[string]bool{}
+		for i, n := range names {
+			if seen[n] || !fsSafeName(n) {
+				continue
+			}
+			seen[n] = true
+			if i%2 == 0 {
+				os.Symlink("../sentinel-a", filepath.Join(j.Target, n))
+			} else {
+				os.Symlink("../target-sibling/made-through-link-"+strconv.Itoa(i), filepath.Join(j.Target, n))
+			}
+		}
+		c.Count("targets_with_outward_links", 1)
+	}
 	before := j.Snap()
 	target := j.Target
 	switch tf {
@@ -180,6 +201,9 @@ func c07One(c *Ctx, cs *Case, f model.Forest, doc, fkey string, rt fsRoute, dry,
 	cs.Opt = map[string]string{"ext": strconv.Itoa(ei), "target_form": strconv.Itoa(tf), "stray_encode_option": stray}
 	if stray != "" {
 		cs.AddTag("stray-encode-option")
+	}
+	if outwardLinks {
+		cs.AddTag("target-has-outward-links")
 	}
 	defer func() { cs.Entry, cs.Tags, cs.Opt = "", nil, nil }()
 	if massive {
